@@ -1,4 +1,4 @@
-import IstioModel.C15.Theorems
+import IstioModel.C15.Derive
 
 /-! Decidability of the hypotheses of the C15 theorems (so that concrete histories can be checked
     against them by kernel evaluation: non-vacuity examples). -/
@@ -48,5 +48,10 @@ instance decAllGood : (c : Ctl) → (ops : List Op) → Decidable (AllGood c ops
   | c, o :: r =>
     have : Decidable (AllGood ((stepC c o).getD c) r) := decAllGood _ r
     by unfold AllGood; exact inferInstance
+
+instance (c : Ctl) : Decidable (NoPodAtUntargeted c) := by unfold NoPodAtUntargeted; exact inferInstance
+
+instance (c : Ctl) (h : String) (sv : Svc) : Decidable (DistinctEps c h sv) := by
+  unfold DistinctEps; exact inferInstance
 
 end IstioModel.C15
